@@ -322,6 +322,14 @@ def reassemble (p : Nat) (data : List Nat) : Nat → Nat → List Nat
 /-- the reaction of the reset instance and of a fresh instance to the same frame -/
 def holdsPair (a b : List FxObs) : Bool := a == b
 
+/-! ## C10 -/
+
+/-- every Probe/Train that responder `a` was ordered to emit towards station `b` (and that was delivered
+    to `b`) shows up in what `b` reports, with `a` as its real source -/
+def holdsC10 (aMac bMac : List Nat) (descs : List Desc) (reported : List ObsDesc) : Bool :=
+  (descs.filter (fun d => decide (d.kind ≤ 1) && d.dst == bMac)).all (fun d =>
+    reported.any (fun o => o.realSrc == aMac && o.src == d.src && o.dst == bMac))
+
 /-! ## C19 -/
 
 /-- after a frame the process retains exactly: one record per interface that has seen a frame, the
